@@ -44,7 +44,7 @@ def base_prog(static):
 class ReplaySession(object):
     """Records P once on a cassette, then replays variants and watches the cassette."""
 
-    def __init__(self, ctx, prog, kind, world_seed=None, raise_rate=0.0):
+    def __init__(self, ctx, prog, kind, world_seed=None, raise_rate=0.0, force_raise=None):
         from playback.tape_recorder import TapeRecorder
         self.ctx = ctx
         self.cm = open_box(kind)
@@ -52,7 +52,7 @@ class ReplaySession(object):
         self.spy = SpyCassette(self.box.cassette)
         self.rec = TapeRecorder(self.spy)
         self.rec.enable_recording()
-        self.live = Built(prog, self.rec, World(world_seed or prog['seed_world'], raise_rate=raise_rate))
+        self.live = Built(prog, self.rec, World(world_seed or prog['seed_world'], raise_rate=raise_rate, force_raise=force_raise))
         self.live.run('live')
         saves = [e for e in self.spy.log if e[0] == 'save']
         self.ok = len(saves) == 1
@@ -65,12 +65,25 @@ class ReplaySession(object):
     def close(self):
         self.cm.__exit__(None, None, None)
 
-    def replay(self, p2, w, enabled):
+    def shared_recorder(self):
+        """One recorder reused for several replays (a regression job replays many recordings on one recorder)."""
+        from playback.tape_recorder import TapeRecorder
+        spy2 = SpyCassette(self.box.reader())
+        rec2 = TapeRecorder(spy2)
+        rec2._vp_spy = spy2
+        return rec2
+
+    def replay(self, p2, w, enabled, recorder=None):
         """-> (Built of the replay, exception out of play() or None). Judges the cassette-immutability part."""
         from playback.tape_recorder import TapeRecorder
         ctx = self.ctx
-        spy2 = SpyCassette(self.box.reader())
-        rec2 = TapeRecorder(spy2)
+        if recorder is not None:
+            rec2, spy2 = recorder, recorder._vp_spy
+            del spy2.log[:]
+            rec2.recording_enabled = False
+        else:
+            spy2 = SpyCassette(self.box.reader())
+            rec2 = TapeRecorder(spy2)
         if enabled:
             rec2.enable_recording()
         rep = Built(p2, rec2, World(1, poison=True), cls_name=self.live.cls.__name__)
@@ -193,6 +206,39 @@ def lattice(ctx):
                         ctx.violation('output call in replay not answered per the missing-result policy', {'lattice_row': row, 'got': repr(got)[:200]})
             finally:
                 sess.close()
+    # ---- inputs whose RECORDED outcome is an exception: present calls must re-raise it whatever the missing-key options say
+    from vlib.programs import BUILTIN_EXCEPTIONS
+    from vlib.values import UserError
+    for exc in [UserError] + BUILTIN_EXCEPTIONS:
+        P = base_prog(False)
+        P['body'] = [{'op': 'try', 'body': [P['body'][0]]}]
+        sess = ReplaySession(ctx, P, 'memory', force_raise=exc)
+        try:
+            live_in = call_outcome(sess.live.journal.calls()[0])
+            present = {('old.alias', canon([1]), canon({})): live_in}
+            for main_present, run_orig, sub in itertools.product([True, False], [False, True], SUBSTITUTES):
+                idx += 1
+                if not ctx.mine(idx):
+                    continue
+                p2 = clone(P)
+                d = p2['inputs'][0]
+                d['alias'] = 'old.alias' if main_present else 'new.alias'
+                d['fallback'] = None if main_present else ['old.alias']
+                d['run_original'], d['substitute'] = run_orig, sub
+                row = {'row': 'input-recorded-exception', 'exception': exc.__name__, 'via': 'main' if main_present else 'fallback',
+                       'run_original': run_orig, 'substitute': sub}
+                ctx.case(row)
+                rep, err = sess.replay(p2, {'lattice_row': row}, enabled=idx % 2 == 0)
+                calls = rep.journal.calls()
+                if len(calls) != 1:
+                    ctx.violation('lattice replay made %d calls' % len(calls), {'lattice_row': row})
+                    continue
+                judge_input_call(ctx, sess, rep, calls[0], rep.decls['old'], present, {'lattice_row': row})
+                ctx.count('recorded_exception_rows')
+                if rep.journal.bodies():
+                    ctx.violation('wrapped body executed during replay although the call is present in the recording (as an exception)', {'lattice_row': row})
+        finally:
+            sess.close()
     ctx.note('lattice_rows', idx)
 
 
@@ -259,8 +305,18 @@ def random_pair(ctx, case_seed):
                     out_results[(d['alias'], n)] = call_outcome(e)
         nrep = rng.choice([1, 1, 2, 3])
         first = None
+        shared = sess.shared_recorder() if rng.random() < 0.6 else None
         for r in range(nrep):
-            rep, err = sess.replay(p2, w, enabled=rng.random() < 0.5)
+            if r > 0 and shared is not None and rng.random() < 0.6:
+                # a replay that fails out of play() in between (it requests an input that was never recorded, after making
+                # its output calls) must not influence the following replays on the same recorder
+                p_fail = clone(p2)
+                p_fail['body'] = [s for s in p2['body']] + [{'op': 'in', 'decl': p2['inputs'][0]['name'],
+                                                             'args': [{'lit': ('NEVER-RECORDED', r)}] * p2['inputs'][0]['nparams'], 'kwargs': {}, 'var': 'zz'}]
+                p_fail['inputs'] = [dict(d, fallback=None, run_original=False, substitute=('none',)) for d in p_fail['inputs']]
+                sess.replay(p_fail, w, enabled=rng.random() < 0.5, recorder=shared)
+                ctx.count('failing_replays_in_between')
+            rep, err = sess.replay(p2, w, enabled=rng.random() < 0.5, recorder=shared)
             calls = rep.journal.calls()
             ctx.case(dict(desc, replay_no=r), nontrivial=bool(calls))
             counters2 = {}
